@@ -15,6 +15,7 @@ Open Scope string_scope.
 (* ------------------------------------------------------------------------------------------ *)
 (* results                                                                                    *)
 
+(* MixedList = the front end refuses the literal with an exception other than OverflowError *)
 Inductive error := TooManyArgs | Overflow | Undefined | Unmodelled | MixedList.
 Inductive result (A : Type) := OK (a : A) | Err (e : error).
 Arguments OK {A} a.
@@ -67,15 +68,20 @@ Definition dclass_of (d : dtype) : dclass :=
 
 (* SFloat neg m e  =  (-1)^neg * m / 2^e  in lowest terms (float.as_integer_ratio); -0.0 = SFloat true 0 0 *)
 Inductive scalar := SInt (z : Z) | SFloat (neg : bool) (m e : N) | SBool (b : bool).
-(* a number/bool, or a non-empty list of them (the empty list is not promotable: autocast._promotable) *)
-Inductive literal := LScalar (s : scalar) | LList (hd : scalar) (tl : list scalar).
+(* a number/bool, a non-empty flat list of them, or a rectangular NESTED list (depth >= 2) given by its
+   elements in row-major order (the shape plays no part in any decision; the harness compares the
+   rank directly).  The empty list is not promotable (autocast._promotable; ir.tensor refuses it). *)
+Inductive literal := LScalar (s : scalar) | LList (hd : scalar) (tl : list scalar)
+                   | LNested (hd : scalar) (tl : list scalar).
 
 Inductive pykind := KInt | KFloat | KBool.
 Definition kind_of (s : scalar) : pykind :=
   match s with SInt _ => KInt | SFloat _ _ _ => KFloat | SBool _ => KBool end.
-Definition head_of (l : literal) : scalar := match l with LScalar s => s | LList h _ => h end.
-Definition scalars_of (l : literal) : list scalar := match l with LScalar s => [s] | LList h t => h :: t end.
-Definition is_list (l : literal) : bool := match l with LScalar _ => false | LList _ _ => true end.
+Definition head_of (l : literal) : scalar := match l with LScalar s => s | LList h _ | LNested h _ => h end.
+Definition scalars_of (l : literal) : list scalar :=
+  match l with LScalar s => [s] | LList h t | LNested h t => h :: t end.
+Definition is_list (l : literal) : bool := match l with LScalar _ => false | _ => true end.
+Definition is_nested (l : literal) : bool := match l with LNested _ _ => true | _ => false end.
 
 (* autocast._get_dtype / ir.tensor inference / builder._PYTHON_TYPE_TO_DTYPE (+ ir.tensor for bool):
    int -> INT64, float -> FLOAT, bool -> BOOL; a list by its first element *)
@@ -91,11 +97,38 @@ Definition isinstance_kind (v head : pykind) : bool :=
   | KInt, KInt | KInt, KBool | KFloat, KFloat | KBool, KBool => true
   | _, _ => false
   end.
+(* GraphBuilder._get_or_create_constant: scalars, and flat lists with
+   `all(isinstance(v, type(value[0])) for v in value) and isinstance(value[0], (int, float, bool, str))`,
+   take the cached-initializer path; every other value (nested list, list mixing types) falls through to
+   `self.initializer(ir.tensor(value, dtype=dtype))` *)
 Definition builder_list_ok (l : literal) : bool :=
   match l with
   | LScalar _ => true
   | LList h t => forallb (fun v => isinstance_kind (kind_of v) (kind_of h)) t
+  | LNested _ _ => false
   end.
+
+(* ir.tensor(value) with no dtype (onnx_ir._convenience._constructors.tensor): what the converter's
+   _emit_const creates, and the builder's fall-through path when no dtype is bound.
+     int (not bool) -> INT64; float -> FLOAT; a flat sequence of non-bool ints -> INT64, of floats -> FLOAT;
+     anything else -> numpy's own inference: all bools -> BOOL, any float -> DOUBLE (float64), else INT64.
+   A nested list is never "a sequence of ints/floats" (its elements are lists): numpy inference. *)
+Definition all_kind (k : pykind) (ss : list scalar) : bool := forallb (fun v => kind_eqb (kind_of v) k) ss.
+Definition any_float (ss : list scalar) : bool := existsb (fun v => kind_eqb (kind_of v) KFloat) ss.
+Definition numpy_infer (ss : list scalar) : dtype :=
+  if all_kind KBool ss then BOOL else if any_float ss then DOUBLE else INT64.
+Definition ir_default_dtype (l : literal) : dtype :=
+  match l with
+  | LScalar s => default_of_kind (kind_of s)
+  | LList h t => if all_kind KInt (h :: t) then INT64
+                 else if all_kind KFloat (h :: t) then FLOAT
+                 else numpy_infer (h :: t)
+  | LNested h t => numpy_infer (h :: t)
+  end.
+(* a literal on which the two default rules coincide and which the builder caches: every scalar and every
+   flat list whose elements have one Python type (AutocastProofs.plain_of_homog) *)
+Definition plainb (l : literal) : bool :=
+  builder_list_ok l && N.eqb (ir_default_dtype l) (default_dtype l).
 
 (* ------------------------------------------------------------------------------------------ *)
 (* values of tensor elements and the two conversion paths                                     *)
@@ -171,6 +204,16 @@ Definition onnx_cast (v : value) (d : dtype) : result value :=
 
 Definition np_cast (l : literal) (d : dtype) : result (list value) :=
   mapM (fun s => np_cast_scalar s d) (scalars_of l).
+
+(* variant w = true (proposed_fixes/ready/C12_01_...): the Python value is converted with C / ONNX Cast
+   semantics (np.asarray(value).astype(dtype)): a Python int wraps modulo 2^bits instead of raising *)
+Definition np_cast_scalar_v (w : bool) (s : scalar) (d : dtype) : result value :=
+  match w, dclass_of d, s with
+  | true, CInt sg bits, SInt z => OK (VI (wrap sg bits z))
+  | _, _, _ => np_cast_scalar s d
+  end.
+Definition np_cast_v (w : bool) (l : literal) (d : dtype) : result (list value) :=
+  mapM (fun s => np_cast_scalar_v w s d) (scalars_of l).
 Definition cast_like (l : literal) (d0 d : dtype) : result (list value) :=
   bind (np_cast l d0) (mapM (fun v => onnx_cast v d)).
 
@@ -235,18 +278,22 @@ Inductive arg := ATensor (d : dtype) (known : bool) | ALit (l : literal) | ANone
 Inductive out :=
 | OKeep (a : arg)                          (* tensors and None pass through unchanged *)
 | OConst (l : literal) (d : dtype)         (* tensor created from the Python value directly at d *)
-| OCastLike (l : literal) (d0 d : dtype).  (* Constant at d0 followed by CastLike to a tensor of type d *)
+| OCastLike (l : literal) (d0 d : dtype)   (* Constant at d0 followed by CastLike to a tensor of type d *)
+| ORefuse (l : literal).                   (* the front end raises instead of promoting the literal *)
 
 Definition out_dtype (o : out) : option dtype :=
-  match o with OKeep _ => None | OConst _ d => Some d | OCastLike _ _ d => Some d end.
+  match o with OKeep _ | ORefuse _ => None | OConst _ d => Some d | OCastLike _ _ d => Some d end.
 Definition out_literal (o : out) : option literal :=
-  match o with OKeep _ => None | OConst l _ => Some l | OCastLike l _ _ => Some l end.
-Definition out_value (o : out) : result (list value) :=
+  match o with OKeep _ => None | OConst l _ => Some l | OCastLike l _ _ => Some l | ORefuse l => Some l end.
+(* w: does this front end create tensors with wrapping conversion (variant, see np_cast_scalar_v) *)
+Definition out_value_v (w : bool) (o : out) : result (list value) :=
   match o with
   | OKeep _ => Err Unmodelled
-  | OConst l d => np_cast l d
+  | OConst l d => np_cast_v w l d
   | OCastLike l d0 d => cast_like l d0 d
+  | ORefuse _ => Err MixedList
   end.
+Definition out_value (o : out) : result (list value) := out_value_v false o.
 
 Definition slot := (arg * pinfo)%type.
 
@@ -301,8 +348,8 @@ Definition info_dtype (a : arg) : option dtype :=
 Definition cast_static (a : arg) (y : option dtype) : out :=
   match a with
   | ALit l => match y with
-              | Some d => OCastLike l (default_dtype l) d
-              | None => OConst l (default_dtype l)
+              | Some d => OCastLike l (ir_default_dtype l) d
+              | None => OConst l (ir_default_dtype l)
               end
   | _ => OKeep a
   end.
@@ -322,17 +369,103 @@ Definition promote_eager (s : schema) (args : list arg) : result (list out) :=
        otherwise at the default dtype followed by a dynamic CastLike *)
 Definition info_builder (a : arg) : option (dtype * bool) :=
   match a with ATensor d k => Some (d, k) | _ => None end.
-Definition cast_builder (a : arg) (y : option (dtype * bool)) : out :=
+(* named = false: the code as read -- a literal outside the cached path reaches
+   `self.initializer(ir.tensor(value, dtype))` with an unnamed tensor and register_initializer raises
+   ValueError("Initializer must have a name").  named = true: proposed_fixes/ready/C12_02_... names it. *)
+Definition builder_default (l : literal) : dtype :=
+  if builder_list_ok l then default_dtype l else ir_default_dtype l.
+Definition cast_builder_v (named : bool) (a : arg) (y : option (dtype * bool)) : out :=
   match a with
-  | ALit l => match y with
-              | Some (d, true) => OConst l d
-              | Some (d, false) => OCastLike l (default_dtype l) d
-              | None => OConst l (default_dtype l)
-              end
+  | ALit l => if builder_list_ok l || named
+              then match y with
+                   | Some (d, true) => OConst l d
+                   | Some (d, false) => OCastLike l (builder_default l) d
+                   | None => OConst l (builder_default l)
+                   end
+              else ORefuse l
   | _ => OKeep a
   end.
-Definition promote_builder (s : schema) (args : list arg) : result (list out) :=
-  bind (annotate s args) (fun sl => OK (cast_inputs (dtype * bool) out p_bkey info_builder cast_builder true sl)).
+Definition promote_builder_v (named : bool) (s : schema) (args : list arg) : result (list out) :=
+  bind (annotate s args)
+       (fun sl => OK (cast_inputs (dtype * bool) out p_bkey info_builder (cast_builder_v named) true sl)).
+Definition cast_builder := cast_builder_v false.
+Definition promote_builder := promote_builder_v false.
+
+(* ------------------------------------------------------------------------------------------ *)
+(* the decision structure of the four functions AS CODE.  harness/c12_decisions.py reads the python   *)
+(* ast of autocast.cast_inputs (+ static_cast_inputs / dynamic_cast_inputs / cast_pyvalue_to_os_tensor)*)
+(* and tape_builder.BuilderBase._cast_inputs / _input_to_ir_value into one `decisions` record per      *)
+(* front end (coq/Gen/C12Decisions.v, fail-closed); `promote_of` gives every flag its meaning; the      *)
+(* theorems in AutocastProofs show that the records read from the code make promote_of the three       *)
+(* algorithms the other theorems are about.                                                          *)
+
+Inductive keysel := KeyConstraintName      (* typevar = expected.type_constraint.name *)
+                  | KeyTypeStr.            (* typevar = expected.type_str             *)
+Inductive bindcond := BindInfoNotNone      (* typeinfo = get_type_info(x); if typeinfo is not None: bind *)
+                    | BindIsValue.         (* if isinstance(x, ir.Value): bind *)
+Inductive infosel := InfoTensorDtype       (* x.dtype if isinstance(x, tensor.Tensor) else None *)
+                   | InfoNonCastableValue  (* None if x is None or castable(x.name) else x *)
+                   | InfoValueItself.      (* the ir.Value *)
+Inductive caststyle := CastLikeIfBound     (* castable constant and y is not None -> CastLike(x, y), else x *)
+                     | CreateAtBound       (* np.array(value, dtype = bound or default) *)
+                     | CreateIfKnownElseCastLike. (* constant at like.type.dtype when known, else default + CastLike *)
+Record decisions := mkD {
+  d_key : keysel;
+  d_index_branch : bool;      (* `if i < len(expected_inputs): expected = expected_inputs[i]` *)
+  d_variadic_branch : bool;   (* `elif expected_inputs[-1] is variadic: expected = expected_inputs[-1]` *)
+  d_raise_otherwise : bool;   (* `else: raise ValueError(too many actual parameters)` *)
+  d_hetero_none : bool;       (* in the variadic branch: `if not homogeneous: append((x, None)); continue` *)
+  d_tail_binds : bool;        (* arguments of the variadic tail go through the binding step like the others *)
+  d_paren_guard : bool;       (* bind only `if "(" not in typevar` *)
+  d_first_wins : bool;        (* ... `and typevar not in type_bindings` *)
+  d_bind : bindcond;
+  d_info : infosel;
+  d_cast : caststyle;
+  d_none_passes : bool;       (* None (omitted optional input) is returned as None *)
+  d_cast_by_lookup : bool     (* second pass: cast(x, type_bindings.get(typevar)) over the recorded pairs *)
+}.
+
+Definition dec_static : decisions :=
+  mkD KeyConstraintName true true true true true true false BindInfoNotNone InfoNonCastableValue CastLikeIfBound true true.
+Definition dec_eager : decisions :=
+  mkD KeyConstraintName true true true true true true false BindInfoNotNone InfoTensorDtype CreateAtBound true true.
+Definition dec_builder : decisions :=
+  mkD KeyTypeStr true true true true true true true BindIsValue InfoValueItself CreateIfKnownElseCastLike true true.
+
+Definition tail_info_g (hetero_none : bool) (s : schema) (f : formal) : pinfo :=
+  if f_homog f || negb hetero_none then head_info s f else mkP None None None.
+Definition positions_g (hetero_none : bool) (s : schema) (n : nat) : result (list pinfo) :=
+  let fs := s_formals s in
+  if Nat.leb n (List.length fs) then OK (map (head_info s) (firstn n fs))
+  else match last_opt fs with
+       | Some f => if is_variadic f
+                   then OK (map (head_info s) fs ++ repeat (tail_info_g hetero_none s f) (n - List.length fs))%list
+                   else Err TooManyArgs
+       | None => Err TooManyArgs
+       end.
+Definition annotate_g (hn : bool) (s : schema) (args : list arg) : result (list slot) :=
+  bind (positions_g hn s (List.length args)) (fun ps => OK (combine args ps)).
+Definition ksel_of (k : keysel) : pinfo -> option string :=
+  match k with KeyConstraintName => p_akey | KeyTypeStr => p_bkey end.
+
+(* the algorithm the flags describe.  `named`: variant of the builder's fall-through path (see
+   cast_builder_v).  Flag combinations the model gives no meaning to evaluate to Err Unmodelled, so no
+   theorem about promote_of can be proved for them. *)
+Definition promote_of (named : bool) (dc : decisions) (s : schema) (args : list arg) : result (list out) :=
+  if d_index_branch dc && d_variadic_branch dc && d_raise_otherwise dc && d_tail_binds dc
+     && d_paren_guard dc && d_none_passes dc && d_cast_by_lookup dc
+  then
+    bind (annotate_g (d_hetero_none dc) s args) (fun sl =>
+      match d_bind dc, d_info dc, d_cast dc with
+      | BindInfoNotNone, InfoNonCastableValue, CastLikeIfBound =>
+          OK (cast_inputs dtype out (ksel_of (d_key dc)) info_dtype cast_static (d_first_wins dc) sl)
+      | BindInfoNotNone, InfoTensorDtype, CreateAtBound =>
+          OK (cast_inputs dtype out (ksel_of (d_key dc)) info_dtype cast_eager (d_first_wins dc) sl)
+      | BindIsValue, InfoValueItself, CreateIfKnownElseCastLike =>
+          OK (cast_inputs (dtype * bool) out (ksel_of (d_key dc)) info_builder (cast_builder_v named) (d_first_wins dc) sl)
+      | _, _, _ => Err Unmodelled
+      end)
+  else Err Unmodelled.
 
 (* ------------------------------------------------------------------------------------------ *)
 (* the specification (property text): the type of the sibling operand that shares its type      *)
@@ -457,9 +590,18 @@ Definition ckey_eqb (eq : scalar -> scalar -> bool) (a b : ckey) : bool :=
 
 (* ir.tensor(value, dtype=resolved): dtype inferred from the Python type when still None *)
 Record tensor := mkT { t_dtype : dtype; t_list : bool; t_vals : list value }.
-Definition create (l : literal) (r : option dtype) : result tensor :=
+Definition create_v (w : bool) (l : literal) (r : option dtype) : result tensor :=
   let d := match r with Some d => d | None => default_dtype l end in
-  bind (np_cast l d) (fun vs => OK (mkT d (is_list l) vs)).
+  bind (np_cast_v w l d) (fun vs => OK (mkT d (is_list l) vs)).
+Definition create := create_v false.
+(* the fall-through path (values outside the cached path): ir.tensor(value, dtype) registered under a
+   fresh name, never entered into the cache *)
+Definition create_ir_v (w : bool) (l : literal) (d : option dtype) : result tensor :=
+  let dd := match d with Some d => d | None => ir_default_dtype l end in
+  bind (np_cast_v w l dd) (fun vs => OK (mkT dd (is_list l) vs)).
+(* what a request denotes on its own *)
+Definition denote_v (w : bool) (l : literal) (d : option dtype) : result tensor :=
+  if builder_list_ok l then create_v w l (resolve l d) else create_ir_v w l d.
 
 Definition cache := list (ckey * tensor).
 Fixpoint cache_find (eq : scalar -> scalar -> bool) (c : cache) (k : ckey) : option tensor :=
@@ -469,24 +611,29 @@ Fixpoint cache_find (eq : scalar -> scalar -> bool) (c : cache) (k : ckey) : opt
   end.
 
 (* GraphBuilder._get_or_create_constant(value, dtype) *)
-Definition get_or_create (eq : scalar -> scalar -> bool) (c : cache) (l : literal) (d : option dtype)
+Definition get_or_create_v (w named : bool) (eq : scalar -> scalar -> bool) (c : cache) (l : literal) (d : option dtype)
   : result (cache * tensor) :=
-  let r := resolve l d in
-  match cache_find eq c (l, r) with
-  | Some t => OK (c, t)
-  | None => bind (create l r) (fun t => OK ((c ++ [((l, r), t)])%list, t))
-  end.
+  if builder_list_ok l then
+    let r := resolve l d in
+    match cache_find eq c (l, r) with
+    | Some t => OK (c, t)
+    | None => bind (create_v w l r) (fun t => OK ((c ++ [((l, r), t)])%list, t))
+    end
+  else if named then bind (create_ir_v w l d) (fun t => OK (c, t))
+  else Err MixedList.
+Definition get_or_create := get_or_create_v false false.
 
 (* a history of requests; a request that raises leaves the cache unchanged *)
-Fixpoint run_cache (eq : scalar -> scalar -> bool) (c : cache) (h : list (literal * option dtype)) : cache :=
+Fixpoint run_cache_v (w named : bool) (eq : scalar -> scalar -> bool) (c : cache) (h : list (literal * option dtype)) : cache :=
   match h with
   | [] => c
   | (l, d) :: t =>
-      match get_or_create eq c l d with
-      | OK (c', _) => run_cache eq c' t
-      | Err _ => run_cache eq c t
+      match get_or_create_v w named eq c l d with
+      | OK (c', _) => run_cache_v w named eq c' t
+      | Err _ => run_cache_v w named eq c t
       end
   end.
+Definition run_cache := run_cache_v false false.
 
 (* ------------------------------------------------------------------------------------------ *)
 (* correspondence cases (harness/c12.py embeds what the three front ends really produced)       *)
@@ -510,15 +657,16 @@ Definition error_eqb (a b : error) : bool :=
   end.
 
 (* model output at position i as an observation *)
-Definition model_obs (r : result (list out)) (i : nat) : obs :=
+Definition model_obs (w : bool) (r : result (list out)) (i : nat) : obs :=
   match r with
   | Err e => ObsErr e
   | OK outs =>
       match nth_error outs i with
+      | Some (ORefuse _) => ObsErr MixedList
       | Some o =>
           match out_dtype o with
           | Some d =>
-              match out_value o with
+              match out_value_v w o with
               | OK vs => ObsT d (Some vs)
               | Err Unmodelled => ObsT d None
               | Err e => ObsErr e
@@ -543,14 +691,14 @@ Definition obs_eqb (m o : obs) : bool :=
   end.
 
 (* what the specification expects at position i: dtype by the rule, value = the literal denoted at that dtype *)
-Definition spec_obs (s : schema) (args : list arg) (i : nat) : obs :=
+Definition spec_obs (w : bool) (s : schema) (args : list arg) (i : nat) : obs :=
   match annotate s args with
   | Err e => ObsErr e
   | OK slots =>
       match nth_error slots i with
       | Some (ALit l, p) =>
           let d := spec_fn slots l p in
-          match np_cast l d with
+          match np_cast_v w l d with
           | OK vs => ObsT d (Some vs)
           | Err Unmodelled => ObsT d None
           | Err e => ObsErr e
@@ -564,44 +712,60 @@ Record ccase := mkC { c_schema : nat; c_args : list arg; c_pos : nat;
 
 (* bit 1: static model <> converter, 2: eager model <> eager, 4: builder model <> builder,
    8: spec <> converter, 16: spec <> eager, 32: spec <> builder, 64: unknown schema index *)
-Definition case_code (all : list schema) (c : ccase) : N :=
+(* which variant of the code the harness found (probed on the real code on every run, Gen/C12Variant.v) *)
+Record variant := mkV { v_eager_wrap : bool; v_builder_wrap : bool; v_builder_named : bool }.
+Definition as_read : variant := mkV false false false.
+
+Definition case_code (vr : variant) (all : list schema) (c : ccase) : N :=
   match nth_error all (c_schema c) with
   | None => 64%N
   | Some s =>
       let a := c_args c in let i := c_pos c in
-      let sp := spec_obs s a i in
-      ((if obs_eqb (model_obs (promote_static s a) i) (c_static c) then 0 else 1)
-       + (if obs_eqb (model_obs (promote_eager s a) i) (c_eager c) then 0 else 2)
-       + (if obs_eqb (model_obs (promote_builder s a) i) (c_builder c) then 0 else 4)
+      let sp := spec_obs (v_eager_wrap vr && v_builder_wrap vr) s a i in
+      ((if obs_eqb (model_obs false (promote_static s a) i) (c_static c) then 0 else 1)
+       + (if obs_eqb (model_obs (v_eager_wrap vr) (promote_eager s a) i) (c_eager c) then 0 else 2)
+       + (if obs_eqb (model_obs (v_builder_wrap vr) (promote_builder_v (v_builder_named vr) s a) i) (c_builder c) then 0 else 4)
        + (if obs_eqb sp (c_static c) then 0 else 8)
        + (if obs_eqb sp (c_eager c) then 0 else 16)
        + (if obs_eqb sp (c_builder c) then 0 else 32))%N
   end.
 
-Fixpoint bad_cases (all : list schema) (i : N) (cs : list ccase) : list (N * N) :=
+Fixpoint bad_cases (vr : variant) (all : list schema) (i : N) (cs : list ccase) : list (N * N) :=
   match cs with
   | [] => []
-  | c :: t => let k := case_code all c in
-              ((if N.eqb k 0 then [] else [(i, k)]) ++ bad_cases all (N.succ i) t)%list
+  | c :: t => let k := case_code vr all c in
+              ((if N.eqb k 0 then [] else [(i, k)]) ++ bad_cases vr all (N.succ i) t)%list
   end.
 
 (* cache correspondence: a history of requests and, for each, the index of the history entry whose
    tensor the real builder returned (its own index = a new initializer was created; None = raised) *)
-Fixpoint cache_trace (eq : scalar -> scalar -> bool) (c : cache) (owners : list (ckey * nat)) (i : nat)
+Fixpoint cache_trace (w named : bool) (eq : scalar -> scalar -> bool) (c : cache) (owners : list (ckey * nat)) (i : nat)
          (h : list (literal * option dtype)) : list (option nat) :=
   match h with
   | [] => []
   | (l, d) :: t =>
-      let r := resolve l d in
-      match cache_find eq c (l, r) with
-      | Some _ =>
-          let o := match find (fun ko => ckey_eqb eq (l, r) (fst ko)) owners with
-                   | Some ko => Some (snd ko) | None => None end in
-          o :: cache_trace eq c owners (S i) t
-      | None =>
-          match create l r with
-          | OK tn => Some i :: cache_trace eq (c ++ [((l, r), tn)])%list (owners ++ [((l, r), i)])%list (S i) t
-          | Err _ => None :: cache_trace eq c owners (S i) t
-          end
-      end
+      if builder_list_ok l then
+        let r := resolve l d in
+        match cache_find eq c (l, r) with
+        | Some _ =>
+            let o := match find (fun ko => ckey_eqb eq (l, r) (fst ko)) owners with
+                     | Some ko => Some (snd ko) | None => None end in
+            o :: cache_trace w named eq c owners (S i) t
+        | None =>
+            match create_v w l r with
+            | OK tn => Some i :: cache_trace w named eq (c ++ [((l, r), tn)])%list (owners ++ [((l, r), i)])%list (S i) t
+            | Err Undefined =>
+                (* a float outside the target's range: np.array raises (as read); astype (w) yields an
+                   implementation-defined element -- a tensor is created and cached, its value is not modelled *)
+                if w then Some i :: cache_trace w named eq (c ++ [((l, r), mkT 0%N (is_list l) [])])%list
+                                                 (owners ++ [((l, r), i)])%list (S i) t
+                else None :: cache_trace w named eq c owners (S i) t
+            | Err _ => None :: cache_trace w named eq c owners (S i) t
+            end
+        end
+      else
+        (* outside the cached path: a fresh initializer of its own (named variant) or an exception *)
+        (if named then match create_ir_v w l d with OK _ => Some i | Err Undefined => if w then Some i else None | Err _ => None end
+         else None)
+        :: cache_trace w named eq c owners (S i) t
   end.
